@@ -137,12 +137,14 @@ static ppointer t_realloc (ppointer p, psize n) {
 	a_calls++;
 	void *q = NULL;
 	int i = find_live (p);
-	if (should_fail (idx)) tr_add ("r%ldx", idx);
+	if (should_fail (idx)) tr_add ("m%ldx", idx);
 	else {
 		q = realloc (p, n);
 		if (q == NULL) _exit (77);
-		if (i >= 0) { a_live[i].p = q; a_live[i].id = idx; } else a_badfree++;
-		tr_add ("r%ld", idx);
+		/* the model sees a reallocation as "a new block, the old one released" */
+		tr_add ("m%ld", idx);
+		if (i >= 0) { tr_add ("f%ld", a_live[i].id); a_live[i].p = q; a_live[i].id = idx; } else { a_badfree++; tr_add ("f?"); }
+		a_calls++;
 	}
 	pthread_mutex_unlock (&amx);
 	return q;
@@ -158,7 +160,7 @@ static void install_tracker (void) {
  * interposed libc calls (-Wl,--wrap=...): close accounting and scripted failures
  */
 static long w_closes, w_badclose, w_keys;
-static char w_fail[16][24];      /* armed one-shot failures by name */
+static char w_fail[16][40];      /* armed one-shot failures by name */
 static int take_fail (const char *name) {
 	for (int i = 0; i < 16; i++)
 		if (!strcmp (w_fail[i], name)) { w_fail[i][0] = 0; return 1; }
@@ -204,8 +206,10 @@ void *__wrap_mmap (void *addr, size_t len, int prot, int flags, int fd, off_t of
 	return r;
 }
 static size_t pgup (size_t n) { size_t pg = (size_t) sysconf (_SC_PAGESIZE); return (n + pg - 1) / pg * pg; }
+static int munmap_scriptable;
 int __real_munmap (void *addr, size_t len);
 int __wrap_munmap (void *addr, size_t len) {
+	if (a_on && munmap_scriptable && take_fail ("munmap")) { errno = EINVAL; return -1; }    /* only p_mem_munmap called with an error argument (mmap_unmap) */
 	int r = __real_munmap (addr, len);
 	if (a_on && r == 0)
 		for (int i = 0; i < w_nmaps; i++)
@@ -240,6 +244,26 @@ int __real_ftruncate (int fd, off_t len);
 int __wrap_ftruncate (int fd, off_t len) {
 	if (a_on && take_fail ("ftruncate")) { errno = EINVAL; return -1; }
 	return __real_ftruncate (fd, len);
+}
+int __real_fstat (int fd, struct stat *sb);
+int __wrap_fstat (int fd, struct stat *sb) {
+	if (a_on && take_fail ("fstat")) { errno = EIO; return -1; }
+	return __real_fstat (fd, sb);
+}
+int __real_getsockopt (int fd, int level, int name, void *val, socklen_t *len);
+int __wrap_getsockopt (int fd, int level, int name, void *val, socklen_t *len) {
+	if (a_on && name == SO_TYPE && take_fail ("getsockopt")) { errno = ENOTSOCK; return -1; }     /* pp_socket_set_details_from_fd, its first question */
+	return __real_getsockopt (fd, level, name, val, len);
+}
+int __real_pthread_attr_init (pthread_attr_t *a);
+int __wrap_pthread_attr_init (pthread_attr_t *a) {
+	if (a_on && take_fail ("pthread_attr_init")) return ENOMEM;
+	return __real_pthread_attr_init (a);
+}
+int __real_pthread_attr_setdetachstate (pthread_attr_t *a, int st);
+int __wrap_pthread_attr_setdetachstate (pthread_attr_t *a, int st) {
+	if (a_on && take_fail ("pthread_attr_setdetachstate")) return EINVAL;
+	return __real_pthread_attr_setdetachstate (a, st);
 }
 int __real_shm_open (const char *name, int oflag, mode_t mode);
 int __wrap_shm_open (const char *name, int oflag, mode_t mode) {
@@ -473,6 +497,18 @@ static char c_lib_init (char **av) {
 	lib_inited = 1;
 	return 'S';
 }
+/* p_libsys_init_full: the allocator table is handed over with the start of the library; an incomplete table is refused
+ * by p_mem_set_vtable (and leaves the table in force untouched) */
+static char c_lib_init_full (char **av) {
+	if (lib_inited) return 'S';
+	PMemVTable vt, bad;
+	vt.f_malloc = t_malloc; vt.f_realloc = t_realloc; vt.f_free = t_free;
+	bad = vt; bad.f_realloc = NULL;
+	if (p_mem_set_vtable (&bad) != FALSE || p_mem_set_vtable (NULL) != FALSE) return 'X';
+	p_libsys_init_full (&vt);
+	lib_inited = 1;
+	return p_libsys_version () != NULL ? 'S' : 'X';
+}
 static char c_lib_shutdown (char **av) {
 	if (!lib_inited) return 'S';
 	p_libsys_shutdown ();
@@ -490,6 +526,10 @@ static char c_strchomp (char **av) { int d = ai (av, 1), v = ai (av, 2); LIB ();
 static char c_strtok (char **av) { int d = ai (av, 1); LIB (); NEED (d, T_STR);
 	pchar *buf = NULL; p_strtok ((pchar *) S[d].p, " ", &buf); return 'S'; }
 static char c_strtod (char **av) { LIB (); return p_strtod (" 12.5e1 ") == 125.0 ? 'S' : 'F'; }
+/* p_realloc of a block the caller owns: NULL means the old block is still valid (and still holds its bytes) */
+static char c_str_realloc (char **av) { int d = ai (av, 1); LIB (); NEED (d, T_STR);
+	if (p_realloc (S[d].p, 0) != NULL) return 'X';                 /* size 0: refused, nothing changes hands */
+	pchar *r = p_realloc (S[d].p, strlen ((pchar *) S[d].p) + 64); if (!r) return 'F'; S[d].p = r; return 'S'; }
 static char c_str_free (char **av) { int d = ai (av, 1); LIB (); NEED (d, T_STR); p_free (S[d].p); clr (d); return 'S'; }
 
 /* --- list */
@@ -711,6 +751,51 @@ static char c_dir_create_missing (char **av) { int e = ai (av, 1); LIB (); ERRAR
 static char c_dir_remove_missing (char **av) { int e = ai (av, 1); LIB (); ERRARG (e, -2);
 	char path[512]; snprintf (path, sizeof path, "%s/no-such-dir", scratch);
 	pboolean ok = p_dir_remove (path, e_in (e)); e_out (e); return ok ? 'X' : 'F'; }
+/* public entry points called with invalid arguments: each must refuse (and report through the error argument) without
+ * acquiring anything */
+static char c_inval (char **av) { int w = ai (av, 1), e = ai (av, 2); LIB (); ERRARG (e, -2); if (w < 0 || w > 36) return '-';
+	char buf[8]; int refused = 0; PError **ep = e_in (e);
+	switch (w) {
+	case 0: refused = p_dir_new (NULL, ep) == NULL; break;
+	case 1: refused = p_dir_create (NULL, 0755, ep) == FALSE; break;
+	case 2: refused = p_dir_remove (NULL, ep) == FALSE; break;
+	case 3: refused = p_dir_get_next_entry (NULL, ep) == NULL; break;
+	case 4: refused = p_dir_rewind (NULL, ep) == FALSE; break;
+	case 5: refused = p_socket_new_from_fd (-1, ep) == NULL; break;
+	case 6: refused = p_socket_get_local_address (NULL, ep) == NULL; break;
+	case 7: refused = p_socket_get_remote_address (NULL, ep) == NULL; break;
+	case 8: refused = p_socket_check_connect_result (NULL, ep) == FALSE; break;
+	case 9: refused = p_socket_bind (NULL, NULL, TRUE, ep) == FALSE; break;
+	case 10: refused = p_socket_connect (NULL, NULL, ep) == FALSE; break;
+	case 11: refused = p_socket_listen (NULL, ep) == FALSE; break;
+	case 12: refused = p_socket_accept (NULL, ep) == NULL; break;
+	case 13: refused = p_socket_receive (NULL, buf, sizeof buf, ep) == -1; break;
+	case 14: refused = p_socket_receive_from (NULL, NULL, buf, sizeof buf, ep) == -1; break;
+	case 15: refused = p_socket_send (NULL, "x", 1, ep) == -1; break;
+	case 16: refused = p_socket_send_to (NULL, NULL, "x", 1, ep) == -1; break;
+	case 17: refused = p_socket_close (NULL, ep) == FALSE; break;
+	case 18: refused = p_socket_shutdown (NULL, TRUE, TRUE, ep) == FALSE; break;
+	case 19: refused = p_socket_set_buffer_size (NULL, P_SOCKET_DIRECTION_RCV, 1024, ep) == FALSE; break;
+	case 20: refused = p_socket_io_condition_wait (NULL, P_SOCKET_IO_CONDITION_POLLIN, ep) == FALSE; break;
+	case 21: refused = p_shm_new (NULL, 16, P_SHM_ACCESS_READWRITE, ep) == NULL; break;
+	case 22: refused = p_shm_lock (NULL, ep) == FALSE; break;
+	case 23: refused = p_shm_unlock (NULL, ep) == FALSE; break;
+	case 24: refused = p_semaphore_new (NULL, 1, P_SEM_ACCESS_OPEN, ep) == NULL; break;
+	case 25: refused = p_semaphore_new ("pvres-never-made", -1, P_SEM_ACCESS_OPEN, ep) == NULL; break;
+	case 26: refused = p_semaphore_acquire (NULL, ep) == FALSE; break;
+	case 27: refused = p_semaphore_release (NULL, ep) == FALSE; break;
+	case 28: refused = p_shm_buffer_new (NULL, 16, ep) == NULL; break;
+	case 29: refused = p_shm_buffer_read (NULL, buf, sizeof buf, ep) == -1; break;
+	case 30: refused = p_shm_buffer_write (NULL, buf, sizeof buf, ep) == -1; break;
+	case 31: refused = p_shm_buffer_get_free_space (NULL, ep) == -1; break;
+	case 32: refused = p_shm_buffer_get_used_space (NULL, ep) == -1; break;
+	case 33: refused = p_ini_file_parse (NULL, ep) == FALSE; break;
+	case 34: refused = p_mem_mmap (0, ep) == NULL; break;
+	case 35: refused = p_mem_munmap (NULL, 0, ep) == FALSE; break;
+	default: refused = p_socket_new (P_SOCKET_FAMILY_INET, P_SOCKET_TYPE_UNKNOWN, P_SOCKET_PROTOCOL_TCP, ep) == NULL; break;
+	}
+	e_out (e);
+	return refused ? 'F' : 'X'; }
 static char c_file_remove_missing (char **av) { int e = ai (av, 1); LIB (); ERRARG (e, -2);
 	char path[512]; snprintf (path, sizeof path, "%s/no-such-file", scratch);
 	p_file_remove (path, e_in (e)); e_out (e); return 'F'; }
@@ -719,12 +804,17 @@ static char c_file_remove_missing (char **av) { int e = ai (av, 1); LIB (); ERRA
 static char c_sa_new (char **av) { int d = ai (av, 1), k = ai (av, 2); LIB (); EMPTY (d);
 	PSocketAddress *r = p_socket_address_new (k == 0 ? "127.0.0.1" : (k == 1 ? "::1" : "bogus"), 80); if (!r) return 'F'; put (d, T_SADDR, r); return 'S'; }
 static char c_sa_any (char **av) { int d = ai (av, 1), f = ai (av, 2); LIB (); EMPTY (d);
-	PSocketAddress *r = p_socket_address_new_any (f ? P_SOCKET_FAMILY_INET6 : P_SOCKET_FAMILY_INET, 81); if (!r) return 'F'; put (d, T_SADDR, r); return 'S'; }
+	PSocketAddress *r = p_socket_address_new_any (f >= 2 ? P_SOCKET_FAMILY_UNKNOWN : (f ? P_SOCKET_FAMILY_INET6 : P_SOCKET_FAMILY_INET), 81); if (!r) return 'F'; put (d, T_SADDR, r); return 'S'; }
 static char c_sa_loop (char **av) { int d = ai (av, 1), f = ai (av, 2); LIB (); EMPTY (d);
-	PSocketAddress *r = p_socket_address_new_loopback (f ? P_SOCKET_FAMILY_INET6 : P_SOCKET_FAMILY_INET, 82); if (!r) return 'F'; put (d, T_SADDR, r); return 'S'; }
-static char c_sa_native (char **av) { int d = ai (av, 1); LIB (); EMPTY (d);
+	PSocketAddress *r = p_socket_address_new_loopback (f >= 2 ? P_SOCKET_FAMILY_UNKNOWN : (f ? P_SOCKET_FAMILY_INET6 : P_SOCKET_FAMILY_INET), 82); if (!r) return 'F'; put (d, T_SADDR, r); return 'S'; }
+/* k (optional): 0 IPv4, 1 IPv4 with a length one byte short, 2 IPv6, 3 IPv6 with a short length, 4 a family the library does not know */
+static char c_sa_native (char **av) { int d = ai (av, 1), k = av[2] ? ai (av, 2) : 0; LIB (); EMPTY (d); if (k < 0 || k > 4) return '-';
 	struct sockaddr_in sin; memset (&sin, 0, sizeof sin); sin.sin_family = AF_INET; sin.sin_port = htons (83); sin.sin_addr.s_addr = htonl (INADDR_LOOPBACK);
-	PSocketAddress *r = p_socket_address_new_from_native (&sin, sizeof sin); if (!r) return 'F'; put (d, T_SADDR, r); return 'S'; }
+	struct sockaddr_in6 sin6; memset (&sin6, 0, sizeof sin6); sin6.sin6_family = AF_INET6; sin6.sin6_port = htons (84); sin6.sin6_addr = in6addr_loopback;
+	struct sockaddr_storage ss; memset (&ss, 0, sizeof ss); ss.ss_family = AF_UNIX;
+	PSocketAddress *r = k <= 1 ? p_socket_address_new_from_native (&sin, sizeof sin - (k == 1))
+	                  : (k <= 3 ? p_socket_address_new_from_native (&sin6, sizeof sin6 - (k == 3)) : p_socket_address_new_from_native (&ss, sizeof ss));
+	if (!r) return 'F'; put (d, T_SADDR, r); return (k == 0 || k == 2) ? 'S' : 'X'; }
 static char c_sa_addr (char **av) { int s = ai (av, 1), d = ai (av, 2); LIB (); NEED (s, T_SADDR); EMPTY (d);
 	pchar *r = p_socket_address_get_address (S[s].p); if (!r) return 'F'; put (d, T_STR, r); return 'S'; }
 static char c_sa_free (char **av) { int d = ai (av, 1); LIB (); NEED (d, T_SADDR); p_socket_address_free (S[d].p); clr (d); return 'S'; }
@@ -902,23 +992,26 @@ static void *th_body (void *arg) {
 		}
 	}
 	__atomic_store_n (&th_done, 1, __ATOMIC_SEQ_CST);
+	if (body == 2) p_uthread_exit (7);                  /* leaves through the library; the join must see the code */
 	return NULL;
 }
 static int ntasks (void) { int n = 0; DIR *d = opendir ("/proc/self/task"); if (!d) return -1; struct dirent *e;
 	while ((e = readdir (d)) != NULL) if (e->d_name[0] != '.') n++; __real_closedir (d); return n; }
 /* thread_run d joinable body key : create a thread, let it finish completely, keep the caller's reference in slot d */
+static int th_long;
 static char c_thread_run (char **av) { int d = ai (av, 1), joinable = ai (av, 2), body = ai (av, 3), k = ai (av, 4); LIB (); EMPTY (d);
 	if (k >= 0) NEED (k, T_TLS);
 	th_key = k >= 0 ? (PUThreadKey *) S[k].p : NULL;
 	th_done = 0; th_go = 0;
 	int base = ntasks ();
-	PUThread *t = p_uthread_create (th_body, PTR (body), joinable ? TRUE : FALSE, "t");
+	PUThread *t = p_uthread_create (th_body, PTR (body), joinable ? TRUE : FALSE, th_long ? "a-thread-name-longer-than-fifteen-characters" : "t");
 	__atomic_store_n (&th_go, 1, __ATOMIC_SEQ_CST);
 	if (!t) return 'F';
-	if (joinable) p_uthread_join (t);
+	if (joinable) { pint code = p_uthread_join (t); if (body == 2 && code != 7) return 'X'; }
 	for (int i = 0; i < 4000 && (!__atomic_load_n (&th_done, __ATOMIC_SEQ_CST) || ntasks () > base); i++) usleep (500);
 	put (d, T_THREAD, t);
 	return 'S'; }
+static char c_thread_run_long (char **av) { th_long = 1; char r = c_thread_run (av); th_long = 0; return r; }
 static char c_thread_unref (char **av) { int d = ai (av, 1); LIB (); NEED (d, T_THREAD);
 	if (d % 2) { p_uthread_ref (S[d].p); p_uthread_unref (S[d].p); }     /* an extra reference taken and dropped: the object goes with the last one only */
 	p_uthread_unref (S[d].p); clr (d); return 'S'; }
@@ -968,7 +1061,12 @@ static char c_mmap_new (char **av) { int d = ai (av, 1), sz = ai (av, 2), e = ai
 	if (!r) return 'F'; put (d, T_MMAP, r); S[d].a = (long) n; memset (r, 0xa5 ^ d, n); return 'S'; }
 static char c_mmap_free (char **av) { int d = ai (av, 1); LIB (); NEED (d, T_MMAP);
 	pboolean ok = p_mem_munmap (S[d].p, (psize) S[d].a, NULL); if (!ok) return 'F'; clr (d); return 'S'; }
-
+/* p_mem_munmap with an error argument: when munmap() fails the mapping is still the caller's */
+static char c_mmap_unmap (char **av) { int d = ai (av, 1), e = ai (av, 2); LIB (); NEED (d, T_MMAP); ERRARG (e, d);
+	munmap_scriptable = 1;
+	pboolean ok = p_mem_munmap (S[d].p, (psize) S[d].a, e_in (e)); e_out (e);
+	munmap_scriptable = 0;
+	if (!ok) return 'F'; clr (d); return 'S'; }
 
 /* ------------------------------------------------------------------------------------------
  * value-level probes (C18: "objects that existed before the call remain valid and unchanged").
@@ -1108,8 +1206,8 @@ static int probe_after (char **av, const char *may, char outcome) {
 }
 
 static const struct { const char *name; char (*fn) (char **); const char *may; } CALLS[] = {
-	{ "lib_init", c_lib_init }, { "lib_shutdown", c_lib_shutdown }, { "cur_thread", c_cur_thread }, { "sysfail", c_sysfail },
-	{ "strdup", c_strdup }, { "strchomp", c_strchomp }, { "strtok", c_strtok, "1S" }, { "strtod", c_strtod }, { "str_free", c_str_free },
+	{ "lib_init", c_lib_init }, { "lib_init_full", c_lib_init_full }, { "lib_shutdown", c_lib_shutdown }, { "cur_thread", c_cur_thread }, { "sysfail", c_sysfail },
+	{ "strdup", c_strdup }, { "strchomp", c_strchomp }, { "strtok", c_strtok, "1S" }, { "strtod", c_strtod }, { "str_realloc", c_str_realloc, "1S" }, { "str_free", c_str_free },
 	{ "list_new", c_list_new }, { "list_append", c_list_append, "1S" }, { "list_prepend", c_list_prepend, "1S" }, { "list_remove", c_list_remove, "1S" },
 	{ "list_free", c_list_free }, { "strlist_free", c_strlist_free },
 	{ "tree_new", c_tree_new }, { "tree_insert", c_tree_insert, "1S" }, { "tree_remove", c_tree_remove, "1S" }, { "tree_clear", c_tree_clear, "1S" }, { "tree_free", c_tree_free },
@@ -1122,7 +1220,7 @@ static const struct { const char *name; char (*fn) (char **); const char *may; }
 	{ "hash_new", c_hash_new }, { "hash_update", c_hash_update }, { "hash_string", c_hash_string }, { "hash_reset", c_hash_reset }, { "hash_check", c_hash_check }, { "hash_free", c_hash_free },
 	{ "ipc_key", c_ipc_key }, { "ipc_tmpdir", c_ipc_tmpdir },
 	{ "dir_new", c_dir_new }, { "dir_next", c_dir_next }, { "dir_path", c_dir_path }, { "dir_rewind", c_dir_rewind }, { "dirent_free", c_dirent_free },
-	{ "dir_free", c_dir_free }, { "file_remove_missing", c_file_remove_missing }, { "dir_create_missing", c_dir_create_missing }, { "dir_remove_missing", c_dir_remove_missing },
+	{ "dir_free", c_dir_free }, { "file_remove_missing", c_file_remove_missing }, { "inval", c_inval }, { "dir_create_missing", c_dir_create_missing }, { "dir_remove_missing", c_dir_remove_missing },
 	{ "sa_new", c_sa_new }, { "sa_any", c_sa_any }, { "sa_loop", c_sa_loop }, { "sa_native", c_sa_native }, { "sa_addr", c_sa_addr }, { "sa_free", c_sa_free },
 	{ "sock_new", c_sock_new }, { "sock_bad", c_sock_bad }, { "sock_listen", c_sock_listen, "1SF" }, { "sock_connect", c_sock_connect },
 	{ "sock_connect_refused", c_sock_connect_refused }, { "sock_connect_timeout", c_sock_connect_timeout }, { "sock_accept", c_sock_accept }, { "sock_local", c_sock_local }, { "sock_remote", c_sock_remote },
@@ -1133,10 +1231,10 @@ static const struct { const char *name; char (*fn) (char **); const char *may; }
 	{ "mutex_new", c_mutex_new }, { "mutex_free", c_mutex_free }, { "cond_new", c_cond_new }, { "cond_free", c_cond_free },
 	{ "rwlock_new", c_rwlock_new }, { "rwlock_free", c_rwlock_free }, { "rwlockg_new", c_rwlockg_new }, { "rwlockg_free", c_rwlockg_free },
 	{ "spin_new", c_spin_new }, { "spin_free", c_spin_free }, { "prof_new", c_prof_new }, { "prof_free", c_prof_free }, { "lock_cycle", c_lock_cycle },
-	{ "thread_run", c_thread_run }, { "thread_unref", c_thread_unref }, { "tls_new", c_tls_new }, { "tls_set", c_tls_set }, { "tls_replace", c_tls_replace },
+	{ "thread_run", c_thread_run }, { "thread_run_long", c_thread_run_long }, { "thread_unref", c_thread_unref }, { "tls_new", c_tls_new }, { "tls_set", c_tls_set }, { "tls_replace", c_tls_replace },
 	{ "tls_get", c_tls_get }, { "tls_free", c_tls_free },
 	{ "loader_new", c_loader_new }, { "loader_sym", c_loader_sym }, { "loader_err", c_loader_err }, { "loader_free", c_loader_free },
-	{ "mmap_new", c_mmap_new }, { "mmap_free", c_mmap_free },
+	{ "mmap_new", c_mmap_new }, { "mmap_free", c_mmap_free }, { "mmap_unmap", c_mmap_unmap },
 	{ NULL, NULL }
 };
 
@@ -1304,6 +1402,38 @@ STD (cross_everything, "strdup 0", "list_new 1", "list_append 1 4", "tree_new 2 
      "shmbuf_free 18", "rwlockg_free 17", "thread_unref 16", "loader_free 15", "tls_free 14", "mutex_free 13", "sem_free 12", "sock_free 11", "sa_free 10",
      "dir_free 8", "str_free 7", "hash_free 6", "ini_free 5", "err_free 4", "ht_free 3", "tree_free 2", "list_free 1", "str_free 0", "err_free 9")
 
+/* gap closing (coverage audit): entry points, release calls and error exits no earlier scenario reached */
+STD (tree_bst_remove, "tree_new 0 0", "tree_insert 0 5", "tree_insert 0 3", "tree_insert 0 8", "tree_insert 0 4", "tree_insert 0 5", "tree_remove 0 5", "tree_remove 0 3",
+     "tree_remove 0 9", "tree_insert 0 9", "tree_remove 0 4", "tree_free 0")
+STD (tree_avl_remove, "tree_new 0 2", "tree_insert 0 5", "tree_insert 0 3", "tree_insert 0 8", "tree_insert 0 2", "tree_insert 0 1", "tree_insert 0 4", "tree_insert 0 5",
+     "tree_remove 0 8", "tree_remove 0 3", "tree_remove 0 9", "tree_insert 0 9", "tree_insert 0 7", "tree_remove 0 1", "tree_free 0")
+STD (tree_rb_remove, "tree_new 0 1", "tree_insert 0 5", "tree_insert 0 4", "tree_insert 0 3", "tree_insert 0 1", "tree_insert 0 2", "tree_insert 0 5", "tree_remove 0 4",
+     "tree_remove 0 5", "tree_remove 0 1", "tree_insert 0 0", "tree_free 0")
+STD (err_set_twice, "err_new 0", "err_set_error 0", "err_set_error 0", "err_set_message 0", "err_copy 0 1", "err_set_error 1", "err_free 1", "err_free 0")
+STD (str_realloc, "strdup 0", "str_realloc 0", "str_realloc 0", "strtok 0", "str_free 0")
+SCEN (init_full, "lib_init_full", "strdup 0", "str_free 0", "lib_shutdown", "lib_init_full", "lib_init_full", "lib_shutdown")
+STD (inval_dir_sock, "inval 0 9", "err_free 9", "inval 1 9", "err_free 9", "inval 2 9", "err_free 9", "inval 3 9", "err_free 9", "inval 4 9", "err_free 9", "inval 5 9", "err_free 9", "inval 6 9", "err_free 9", "inval 7 9", "err_free 9", "inval 8 9", "err_free 9", "inval 9 9", "err_free 9", "inval 10 9", "err_free 9", "inval 11 9", "err_free 9", "inval 12 9", "err_free 9", "inval 0 x", "inval 12 9", "inval 0 9", "err_free 9")
+STD (inval_sock_ipc, "inval 13 9", "err_free 9", "inval 14 9", "err_free 9", "inval 15 9", "err_free 9", "inval 16 9", "err_free 9", "inval 17 9", "err_free 9", "inval 18 9", "err_free 9", "inval 19 9", "err_free 9", "inval 20 9", "err_free 9", "inval 21 9", "err_free 9", "inval 22 9", "err_free 9", "inval 23 9", "err_free 9", "inval 24 9", "err_free 9", "inval 13 x", "inval 24 9", "inval 13 9", "err_free 9")
+STD (inval_ipc_mem, "inval 25 9", "err_free 9", "inval 26 9", "err_free 9", "inval 27 9", "err_free 9", "inval 28 9", "err_free 9", "inval 29 9", "err_free 9", "inval 30 9", "err_free 9", "inval 31 9", "err_free 9", "inval 32 9", "err_free 9", "inval 33 9", "err_free 9", "inval 34 9", "err_free 9", "inval 35 9", "err_free 9", "inval 36 9", "err_free 9", "inval 25 x", "inval 36 9", "inval 25 9", "err_free 9")
+STD (sa_refused, "sa_any 0 2", "sa_loop 1 2", "sa_native 2 1", "sa_native 3 3", "sa_native 4 4", "sa_native 5 2", "sa_native 6 0", "sa_addr 5 7", "str_free 7", "sa_free 5", "sa_free 6",
+     "sa_free 0", "sa_free 1", "sa_free 2", "sa_free 3", "sa_free 4")
+STD (sock_getsockopt_fail, "sysfail getsockopt", "sock_from_fd 0 9", "sock_free 0", "sock_from_fd 0 9", "sock_free 0", "err_free 9")
+STD (sock_getsockopt_fail_accept, "sock_new 0 0 9", "sock_listen 0 9", "sock_new 1 0 9", "sock_connect 1 0 9", "sysfail getsockopt", "sock_accept 0 2 9", "sock_free 2",
+     "sock_new 3 0 9", "sock_connect 3 0 9", "sock_accept 0 2 9", "sock_free 3", "sock_free 2", "sock_free 1", "sock_free 0", "err_free 9")
+STD (shm_fstat_fail, "shm_new 0 0 0 9", "shm_cycle 0 9", "sysfail fstat", "shm_new 1 0 0 9", "shm_free 1", "shm_cycle 0 9", "shm_new 1 0 2 9", "shm_free 1", "shm_free 0",
+     "sysfail fstat", "shmbuf_new 2 1 0 9", "shmbuf_new 3 1 0 9", "shmbuf_rw 2 9", "shmbuf_free 3", "shmbuf_free 2", "err_free 9")
+STD (shm_mmap_fail_existing, "shm_new 0 0 0 9", "shm_cycle 0 9", "sysfail mmap", "shm_new 1 0 0 9", "shm_free 1", "shm_cycle 0 9", "shm_free 0", "err_free 9")
+/* ownership taken by a handle that did not create the object, while a third handle is still alive: the free of the new owner is
+ * the one that removes the names (seen by the resource counts after that call when the scenario runs as a C20 sequence) */
+STD (shmbuf_own, "shmbuf_new 0 1 0 9", "shmbuf_new 1 1 0 9", "shmbuf_fill 0 9", "shmbuf_free 0", "shmbuf_new 2 1 0 9", "shmbuf_own 1", "shmbuf_rw 1 9", "shmbuf_free 1",
+     "shmbuf_rw 2 9", "shmbuf_free 2", "err_free 9")
+STD (own_last, "sem_new 0 0 0 9", "sem_new 1 0 0 9", "sem_free 0", "sem_new 2 0 0 9", "sem_own 1", "sem_free 1", "sem_cycle 2 9", "sem_free 2",
+     "shm_new 0 1 0 9", "shm_new 1 1 0 9", "shm_free 0", "shm_new 2 1 0 9", "shm_own 1", "shm_free 1", "shm_cycle 2 9", "shm_free 2", "err_free 9")
+STD (thread_attr_fail, "sysfail pthread_attr_init", "thread_run 0 1 0 x", "thread_unref 0", "sysfail pthread_attr_setdetachstate", "thread_run 0 0 0 x", "thread_unref 0",
+     "thread_run 0 1 0 x", "thread_unref 0")
+STD (thread_long_name, "thread_run_long 0 1 0 x", "thread_unref 0", "tls_new 1", "thread_run_long 0 0 1 1", "thread_unref 0", "tls_free 1")
+STD (mmap_unmap, "mmap_new 0 1 9", "sysfail munmap", "mmap_free 0", "mmap_new 0 1 9", "mmap_unmap 0 9", "mmap_unmap 0 9", "mmap_new 1 0 x", "mmap_unmap 1 x", "mmap_free 0", "mmap_free 1", "err_free 9")
+
 /* thorough tier: several scenarios in one process, one after the other */
 STD (long_containers,
      "strdup 0", "strtok 0", "str_free 0", "strchomp 0 0", "strchomp 1 1", "strchomp 2 2",
@@ -1385,6 +1515,9 @@ static const struct { const char *name; void (*fn) (void); } SCENARIOS[] = {
 	E (thread_join), E (thread_detached), E (thread_tls_body), E (thread_two), E (thread_extra_ref), E (thread_create_fail), E (tls_main), E (tls_key_fail), E (cur_thread),
 	E (loader_basic), E (loader_missing), E (loader_dlopen_fail), E (mmap_basic), E (mmap_fail),
 	E (cross_ini_containers), E (cross_dir_hash), E (cross_ipc_socket), E (cross_error_chain), E (cross_everything),
+	E (tree_bst_remove), E (tree_avl_remove), E (tree_rb_remove), E (err_set_twice), E (str_realloc), E (init_full), E (inval_dir_sock), E (inval_sock_ipc), E (inval_ipc_mem),
+	E (sa_refused), E (sock_getsockopt_fail), E (sock_getsockopt_fail_accept), E (shm_fstat_fail), E (shm_mmap_fail_existing), E (shmbuf_own), E (own_last), E (thread_attr_fail),
+	E (thread_long_name), E (mmap_unmap),
 	E (long_containers), E (long_system), E (long_ipc_threads),
 	{ NULL, NULL }
 };
